@@ -1262,12 +1262,12 @@ func TestVerifC03(t *testing.T) {
 		fams = append(fams, f)
 	}
 
-	nDirect := verifkit.N(150, 5000)
+	nDirect := verifkit.N(150, 4000)
 	for i := 0; i < nDirect; i++ {
 		f := fams[[]int{0, 0, 0, 1, 2}[r.Intn(5)]]
 		x.directCase(f.root[r.Intn(2)], thorough)
 	}
-	nPre := verifkit.N(48, 1200)
+	nPre := verifkit.N(48, 1000)
 	for i := 0; i < nPre; i++ {
 		f := fams[[]int{0, 0, 1, 2}[r.Intn(4)]]
 		rs, ps := i%2 == 0, (i/2)%2 == 0
@@ -1333,8 +1333,8 @@ func TestVerifC03(t *testing.T) {
 		x.variantCases(fams[i%3].root[i%2])
 	}
 	x.lengthBoundaries(fams[0].root[1])
-	for i, n := 0, verifkit.N(3, 30); i < n; i++ {
-		x.fuzzCases(fams[i%3].root[i%2], verifkit.N(300, 1500))
+	for i, n := 0, verifkit.N(3, 20); i < n; i++ {
+		x.fuzzCases(fams[i%3].root[i%2], verifkit.N(300, 1000))
 	}
 	x.leanExamples()
 	out.Add("cases:route-pairs", int64(x.n))
